@@ -1009,7 +1009,7 @@ func runC11(seed int64, tier string, outDir string) *result {
 		rr := rand.New(rand.NewSource(rng.Int63()))
 		return func(n int) int { return rr.Intn(n) }
 	}
-	kinds := []faultKind{faultAbsent, faultError, faultGarble}
+	kinds := []faultKind{faultAbsent, faultError, faultGarble, faultTimeout}
 	exhaustive := 0
 	exploredAll := 0
 
